@@ -559,7 +559,15 @@ def run_check(spec, tier, seed):
     known = load_known_findings()
     known_open = [k for k in known.get('open', []) if k.get('property') == pid or pid in k.get('correspondence_scope', [])]
 
-    def is_known(c, it, why, corr=False):
+    def first_diff_tick(it, mt):
+        a, b = canon_trace(it), canon_trace(mt)
+        for x, y in zip(a + ['<end>'], b + ['<end>']):
+            if x != y:
+                ts = [int(m.group(1)) for m in (re.search(r'(?:@|tick=)(\d+)', z) for z in (x, y)) if m]
+                return min(ts) if ts else None
+        return None
+
+    def is_known(c, it, why, corr=False, mt=None):
         for k in known_open:
             pat = dict(k.get('match', {}))
             if corr:
@@ -567,6 +575,12 @@ def run_check(spec, tier, seed):
                 if not k.get('covers_correspondence'):
                     continue
                 pat.pop('why_regex', None)
+                if k.get('corr_not_before') and mt is not None:
+                    # ... and only from the moment the finding's event happened in this run (tick taken from the trace)
+                    t0 = [int(m.group(1)) for m in (re.search(k['corr_not_before'], l) for l in (it or [])) if m]
+                    td = first_diff_tick(it, mt)
+                    if t0 and td is not None and td < t0[0]:
+                        continue
             elif k.get('property') != pid:
                 continue
             if 'cfg_regex' in pat and not re.search(pat['cfg_regex'], c['cfg']):
@@ -606,7 +620,7 @@ def run_check(spec, tier, seed):
     # 2. correspondence mismatches
     unknown_mm = []
     for (c, it, mt) in mismatches:
-        k = is_known(c, it, None, corr=True)
+        k = is_known(c, it, None, corr=True, mt=mt)
         if k:
             seen_known.add(k['class'])
         else:
@@ -619,7 +633,7 @@ def run_check(spec, tier, seed):
             # shrinking must stay outside the regime of the recorded findings: a smaller history that differs for a known
             # reason is another failure, not a smaller version of this one
             c = shrink_case(sub, c, lambda cc, i2, m2: i2 is not None and not (i2 and i2[0].startswith('PARSE-'))
-                            and not spec.get('compare', same_trace)(i2, m2) and not is_known(cc, i2, None, corr=True))
+                            and not spec.get('compare', same_trace)(i2, m2) and not is_known(cc, i2, None, corr=True, mt=m2))
             r = run_both(sub, [dict(c, id='final')], 'shrink', shards=1, timeout=120)
             it, mt = r['final']
         except Exception:
@@ -627,12 +641,15 @@ def run_check(spec, tier, seed):
         why = None
         if spec.get('oracle'):
             why = spec['oracle'](c, it)
-        k = is_known(c, it, why or 'correspondence') or is_known(c, it, None, corr=True)
+        # a difference between model and implementation is explained by a recorded finding only when the finding says that it
+        # covers the correspondence (the model reproduces the recorded findings, so an oracle explanation that happens to
+        # match one does not account for the difference)
+        k = is_known(c, it, None, corr=True, mt=mt)
         if k:
-            # the shrunk case drifted into a recorded finding: report the original, which is not one
+            # the shrunk case drifted into such a finding: report the original, which is not one
             c, it, mt = c0, it0, mt0
             why = spec['oracle'](c, it) if spec.get('oracle') else None
-            k = is_known(c, it, why or 'correspondence') if why else None
+            k = None
         if k:
             seen_known.add(k['class'])
         else:
